@@ -8,6 +8,12 @@ use bytes::Bytes;
 use cascette_cache::config::{DiskCacheConfig, MemoryCacheConfig};
 use cascette_cache::traits::{AsyncCache, EvictionPolicy};
 use cascette_cache::{DiskCache, MemoryCache};
+use cascette_client_storage::container::dynamic::DynamicContainer;
+use cascette_client_storage::container::{AccessMode, Container};
+use cascette_client_storage::StorageError;
+use cascette_crypto::EncodingKey;
+use cascette_formats::blte::{BlteFile, CompressionMode};
+use cascette_formats::CascFormat;
 use serde::{Deserialize, Serialize};
 use serde_json::json;
 use std::collections::HashSet;
@@ -107,8 +113,36 @@ fn id_of(bytes: &[u8]) -> Res {
     Res::Torn(bytes.len())
 }
 
+/// Which sequential specification applies.
+#[derive(Clone, Copy, PartialEq)]
+enum Mode {
+    Mem,
+    Disk,
+    /// DynamicContainer: a set of keys with fixed content per key; write/remove return ()
+    Container,
+}
+
 /// Sequential specification: apply `op`; returns whether `res` is what the spec allows.
-fn spec_step(disk: bool, st: &mut [KS], op: &COp, id: u64, res: &Res) -> bool {
+fn spec_step(mode: Mode, st: &mut [KS], op: &COp, id: u64, res: &Res) -> bool {
+    let disk = mode == Mode::Disk;
+    if mode == Mode::Container {
+        return match op {
+            COp::Get(k) => match st[*k] {
+                KS::Live(v) => *res == Res::Val(Some(v)),
+                _ => *res == Res::Val(None),
+            },
+            COp::Contains(k) => *res == Res::Bool(matches!(st[*k], KS::Live(_))),
+            COp::Put(k) | COp::PutLong(k) | COp::PutTtl0(k) => {
+                st[*k] = KS::Live(*k as u64);
+                *res == Res::Unit
+            }
+            COp::Remove(k) => {
+                st[*k] = KS::Absent;
+                *res == Res::Unit
+            }
+            COp::Clear => false,
+        };
+    }
     match op {
         COp::Get(k) => match st[*k] {
             KS::Live(v) => *res == Res::Val(Some(v)),
@@ -155,13 +189,13 @@ fn spec_step(disk: bool, st: &mut [KS], op: &COp, id: u64, res: &Res) -> bool {
 }
 
 /// Wing-Gong / Lowe style search for a linearization consistent with real-time order.
-fn linearizable(disk: bool, init: &[KS], h: &[HOp]) -> bool {
+fn linearizable(disk: Mode, init: &[KS], h: &[HOp]) -> bool {
     let n = h.len();
     if n == 0 {
         return true;
     }
     let mut seen: HashSet<(u32, Vec<KS>)> = HashSet::new();
-    fn dfs(disk: bool, h: &[HOp], mask: u32, st: &[KS], seen: &mut HashSet<(u32, Vec<KS>)>) -> bool {
+    fn dfs(disk: Mode, h: &[HOp], mask: u32, st: &[KS], seen: &mut HashSet<(u32, Vec<KS>)>) -> bool {
         let n = h.len();
         if mask == (1u32 << n) - 1 {
             return true;
@@ -185,7 +219,8 @@ fn linearizable(disk: bool, init: &[KS], h: &[HOp]) -> bool {
                     return true;
                 }
                 let ok_res = match h[i].op {
-                    COp::Get(_) | COp::Contains(_) | COp::Remove(_) => None,
+                    COp::Get(_) | COp::Contains(_) => None,
+                    COp::Remove(_) if disk != Mode::Container => None,
                     _ => Some(Res::Unit),
                 };
                 if let Some(r) = ok_res {
@@ -264,7 +299,7 @@ impl Scenario for Conc {
         "exploration"
     }
     fn rule(&self) -> &'static str {
-        "Per run one shared MemoryCache or DiskCache, 2-3 tasks x 1-3 operations from {get, contains, put, put_with_ttl(0 = already expired), put_with_ttl(24h), remove, clear(memory only)} on 1-2 keys (every written value unique), optionally after a sequential setup that leaves an expired entry behind. Each task is a real OS thread; exactly one runs at a time and at every sched_point hook (between consecutive shared-state accesses: map get/remove/insert, counter updates, temp-file open/write/fsync/rename, index update) a seeded chooser (uniform random or PCT with 1-3 priority change points) decides who runs next. Invocations and responses are stamped with a global sequence number; a Wing-Gong/Lowe search looks for a linearization accepted by the sequential cache specification; any Err is a violation; at quiescence size()/usage must equal what a probe of every key retrieves. A third arm (tiny max_entries) exercises the eviction loops and checks values, errors and accounting only. Non-trivial = >= 2 state-changing ops and >= 1 context switch at a hook site; distinct = hash of (case, schedule, results)."
+        "Per run one shared MemoryCache or DiskCache, 2-3 tasks x 1-3 operations from {get, contains, put, put_with_ttl(0 = already expired), put_with_ttl(24h), remove, clear(memory only)} on 1-2 keys (every written value unique), optionally after a sequential setup that leaves an expired entry behind. Each task is a real OS thread; exactly one runs at a time and at every sched_point hook (between consecutive shared-state accesses: map get/remove/insert, counter updates, temp-file open/write/fsync/rename, index update) a seeded chooser (uniform random or PCT with 1-3 priority change points) decides who runs next. Invocations and responses are stamped with a global sequence number; a Wing-Gong/Lowe search looks for a linearization accepted by the sequential cache specification; any Err is a violation; at quiescence size()/usage must equal what a probe of every key retrieves. A third arm (tiny max_entries) exercises the eviction loops and checks values, errors and accounting only. A fourth arm shares one DynamicContainer (feature verif-hooks: its RwLocks become try-lock + yield-to-scheduler, so threads can be preempted inside save_all while holding the index lock): 2-3 tasks x 1-2 operations from {write, read, query, remove} on 1-2 encoding keys, preempted between archive write / index add / save and between create / write / fsync / rename of every index temp file; oracle: no panic, no deadlock (all unfinished tasks waiting for a lock), no error for an operation that did not overlap a mutator of the same key, reads return exactly the content written, the history extended by a sequential query+read of every key at quiescence is linearizable against a set specification, and a fresh container opened on the same directory answers exactly as the live one. Non-trivial = >= 2 state-changing ops and >= 1 context switch at a hook site; distinct = hash of (case, schedule, results)."
     }
     fn assumptions(&self) -> Vec<&'static str> {
         vec![
@@ -276,6 +311,7 @@ impl Scenario for Conc {
     fn components(&self) -> Vec<(&'static str, &'static str)> {
         vec![
             ("MemoryCache / DiskCache operations incl. eviction loops and temp-file protocol", "real (feature verif-hooks: sched_point calls compiled in)"),
+            ("DynamicContainer read/write/remove/query, ArchiveManager, IndexManager::save_all temp-file protocol", "real (feature verif-hooks: sched_point calls compiled in; parking_lot::RwLock behind a try-lock wrapper that yields to the scheduler instead of sleeping)"),
             ("OS thread scheduling", "simulated (baton controller: one runnable thread, seeded choice at every hook site)"),
             ("clock / entropy", "simulated (interposed; 1 ns tick per read keeps timestamps strictly ordered)"),
             ("async executor", "futures::executor::block_on per task (the cache futures never suspend)"),
@@ -289,13 +325,22 @@ impl Scenario for Conc {
     }
 
     fn generate(&self, rng: &mut Rng, _tier: Tier) -> Case {
-        let sut = *rng.pick(&["memory", "memory", "disk", "disk", "memory_evict"]);
+        let sut = *rng.pick(&["memory", "memory", "disk", "disk", "memory_evict", "container", "container"]);
         let evict = sut == "memory_evict";
         let nkeys = if evict { rng.range(3, 4) as usize } else { rng.range(1, 2) as usize };
         let ntasks = rng.range(2, 3) as usize;
         let disk = sut == "disk";
+        let container = sut == "container";
         let gen_op = |rng: &mut Rng, disk: bool| -> COp {
             let k = rng.usize_below(nkeys);
+            if container {
+                return match rng.below(100) {
+                    0..=24 => COp::Get(k),
+                    25..=34 => COp::Contains(k),
+                    35..=74 => COp::Put(k),
+                    _ => COp::Remove(k),
+                };
+            }
             match rng.below(100) {
                 0..=27 => COp::Get(k),
                 28..=35 => COp::Contains(k),
@@ -314,6 +359,7 @@ impl Scenario for Conc {
         };
         let setup: Vec<COp> = match rng.below(10) {
             0..=3 => vec![],
+            _ if container => vec![COp::Put(rng.usize_below(nkeys))],
             4..=6 => vec![COp::PutTtl0(rng.usize_below(nkeys))],
             7..=8 => vec![COp::Put(rng.usize_below(nkeys))],
             _ => vec![COp::Put(rng.usize_below(nkeys)), COp::PutTtl0(rng.usize_below(nkeys))],
@@ -321,7 +367,7 @@ impl Scenario for Conc {
         let mut tasks = Vec::new();
         let mut total = 0;
         for _ in 0..ntasks {
-            let n = rng.range(1, 3) as usize;
+            let n = rng.range(1, if container { 2 } else { 3 }) as usize;
             let n = n.min(9 - total).max(1);
             total += n;
             tasks.push((0..n).map(|_| gen_op(rng, disk)).collect());
@@ -383,8 +429,12 @@ impl Scenario for Conc {
 fn run(case: &Case, ctx: &mut Ctx) -> Option<Violation> {
     let nk = case.nkeys.max(1);
     let keys: Vec<SimKey> = (0..nk).map(SimKey::n).collect();
+    if case.sut == "container" {
+        return run_container(case, ctx);
+    }
     let evict = case.sut == "memory_evict";
     let disk = case.sut == "disk";
+    let mode = if disk { Mode::Disk } else { Mode::Mem };
     let sut = if disk {
         let cfg = DiskCacheConfig::new(ctx.root.join("cache")).with_subdirectories(false, 1);
         match DiskCache::<SimKey>::new(cfg) {
@@ -433,7 +483,7 @@ fn run(case: &Case, ctx: &mut Ctx) -> Option<Violation> {
         if let Res::Err(e) = &res {
             panic!("harness: setup op failed: {e}");
         }
-        if !spec_step(disk, &mut init, &op, id, &res) {
+        if !spec_step(mode, &mut init, &op, id, &res) {
             return Some(Violation::new("C11.sequential", "sequential_mismatch", format!("C11/{}/sequential_mismatch", case.sut), format!("setup op #{i} {op:?} returned {res:?}, which the sequential specification does not allow")));
         }
     }
@@ -551,7 +601,7 @@ fn run(case: &Case, ctx: &mut Ctx) -> Option<Violation> {
         }
     }
     // ---- linearizability ----
-    if !evict && !linearizable(disk, &init, &h) {
+    if !evict && !linearizable(mode, &init, &h) {
         return Some(Violation::new("C11.linearizable", "not_linearizable", sig("not_linearizable"), format!("no sequential order consistent with real-time order explains the results (initial state {init:?}); preempted at [{}]; history: {}", preempt_sites.join(", "), hist_txt())).with_patch(patch));
     }
     // ---- books balanced at quiescence ----
@@ -572,6 +622,217 @@ fn run(case: &Case, ctx: &mut Ctx) -> Option<Violation> {
     }
     if used != bytes {
         return Some(Violation::new("C11.books.usage", "usage_mismatch", sig("usage_mismatch"), format!("after all tasks finished the usage figure is {used} bytes but the retrievable values total {bytes} bytes; history: {}", hist_txt())).with_patch(patch));
+    }
+    None
+}
+
+
+// =========================================================================================
+// DynamicContainer arm: concurrent write / read / query / remove on one local container
+// =========================================================================================
+
+fn container_content(k: usize) -> Vec<u8> {
+    super::payload(0xC0_0000 + k as u64, 40 + 13 * k)
+}
+
+fn open_container(dir: &std::path::Path) -> Result<DynamicContainer, String> {
+    let c = DynamicContainer::new(AccessMode::ReadWrite, dir.to_path_buf(), false, 0x3FF, 0x4000_0000, false).map_err(|e| e.to_string())?;
+    super::paused_runtime().block_on(c.open()).map_err(|e| e.to_string())?;
+    Ok(c)
+}
+
+fn do_cop(c: &DynamicContainer, ekeys: &[[u8; 16]], contents: &[Vec<u8>], op: &COp) -> Res {
+    use futures::executor::block_on;
+    match op {
+        COp::Get(k) => {
+            let mut buf = vec![0u8; contents[*k].len() + 64];
+            match block_on(c.read(&ekeys[*k], 0, 0, &mut buf)) {
+                Ok(n) => {
+                    if buf[..n] == contents[*k][..] {
+                        Res::Val(Some(*k as u64))
+                    } else {
+                        Res::Torn(n)
+                    }
+                }
+                Err(StorageError::NotFound(_)) => Res::Val(None),
+                Err(e) => Res::Err(e.to_string()),
+            }
+        }
+        COp::Contains(k) => match block_on(c.query(&ekeys[*k])) {
+            Ok(b) => Res::Bool(b),
+            Err(e) => Res::Err(e.to_string()),
+        },
+        COp::Put(k) | COp::PutLong(k) | COp::PutTtl0(k) => match block_on(c.write(&ekeys[*k], &contents[*k])) {
+            Ok(()) => Res::Unit,
+            Err(e) => Res::Err(e.to_string()),
+        },
+        COp::Remove(k) => match block_on(c.remove(&ekeys[*k])) {
+            Ok(()) => Res::Unit,
+            Err(e) => Res::Err(e.to_string()),
+        },
+        COp::Clear => Res::Unit,
+    }
+}
+
+fn run_container(case: &Case, ctx: &mut Ctx) -> Option<Violation> {
+    let nk = case.nkeys.clamp(1, 2);
+    let contents: Vec<Vec<u8>> = (0..nk).map(container_content).collect();
+    let ekeys: Vec<[u8; 16]> = contents
+        .iter()
+        .map(|d| {
+            let blte = BlteFile::single_chunk(d.clone(), CompressionMode::None).ok().and_then(|b| b.build().ok()).unwrap_or_else(|| panic!("harness: BLTE encoding failed"));
+            *EncodingKey::from_data(&blte).as_bytes()
+        })
+        .collect();
+    let dir = ctx.root.join("store");
+    let c = match open_container(&dir) {
+        Ok(c) => Arc::new(c),
+        Err(e) => panic!("harness: container: {e}"),
+    };
+    ctx.obs(serde_json::to_string(&(&case.sut, &case.setup, &case.tasks)).unwrap_or_default().as_bytes());
+    let norm = |op: &COp| -> COp {
+        match op {
+            COp::Get(k) => COp::Get(k % nk),
+            COp::Contains(k) => COp::Contains(k % nk),
+            COp::Put(k) | COp::PutTtl0(k) | COp::PutLong(k) => COp::Put(k % nk),
+            COp::Remove(k) => COp::Remove(k % nk),
+            COp::Clear => COp::Get(0),
+        }
+    };
+    let sig = |class: &str| format!("C11/container/{class}");
+
+    // ---- sequential setup ----
+    let mut init = vec![KS::Absent; nk];
+    for (i, op) in case.setup.iter().enumerate() {
+        let op = norm(op);
+        let res = do_cop(&c, &ekeys, &contents, &op);
+        if let Res::Err(e) = &res {
+            return Some(Violation::new("C11.sequential", "sequential_error", sig("sequential_error"), format!("setup op #{i} {op:?} failed with no other task running: {e}")));
+        }
+        if !spec_step(Mode::Container, &mut init, &op, 0, &res) {
+            return Some(Violation::new("C11.sequential", "sequential_mismatch", sig("sequential_mismatch"), format!("setup op #{i} {op:?} returned {res:?}, which the sequential specification does not allow")));
+        }
+    }
+
+    // ---- concurrent tasks under the scheduler ----
+    let history: Arc<Mutex<Vec<HOp>>> = Arc::new(Mutex::new(Vec::new()));
+    let mut tasks: Vec<Box<dyn FnOnce(&Arc<sched::Inner>) + Send>> = Vec::new();
+    for (tid, ops) in case.tasks.iter().enumerate() {
+        let ops: Vec<COp> = ops.iter().map(&norm).collect();
+        let c = c.clone();
+        let ekeys = ekeys.clone();
+        let contents = contents.clone();
+        let hist = history.clone();
+        tasks.push(Box::new(move |inner: &Arc<sched::Inner>| {
+            for (j, op) in ops.iter().enumerate() {
+                let id = ((tid as u64 + 1) << 8) | (j as u64 + 1);
+                let inv = inner.stamp();
+                let res = do_cop(&c, &ekeys, &contents, op);
+                let ret = inner.stamp();
+                hist.lock().unwrap_or_else(std::sync::PoisonError::into_inner).push(HOp { tid, inv, ret, op: op.clone(), id, res });
+            }
+        }));
+    }
+    let strategy = match (&case.schedule, case.strategy.as_str()) {
+        (Some(s), _) => Strategy::Explicit(s.clone()),
+        (None, "pct1") => Strategy::Pct { d: 1, span: 120 },
+        (None, "pct2") => Strategy::Pct { d: 2, span: 160 },
+        (None, "pct3") => Strategy::Pct { d: 3, span: 240 },
+        _ => Strategy::Random,
+    };
+    let mut srng = Rng::new(case.sched_seed);
+    let install = |h: Option<Arc<sched::Hook>>| {
+        cascette_client_storage::verif_hooks::install_controller(h.map(|x| x as Arc<dyn cascette_client_storage::verif_hooks::SchedController>));
+    };
+    let rr = sched::run(tasks, &strategy, &mut srng, &install);
+    let mut h: Vec<HOp> = history.lock().unwrap_or_else(std::sync::PoisonError::into_inner).clone();
+    h.sort_by_key(|o| o.inv);
+    let concurrent_ops = h.len();
+
+    // ---- record ----
+    let sched_ids: Vec<usize> = rr.schedule.iter().map(|(t, _)| *t).collect();
+    let mut preempt_sites: Vec<&'static str> = Vec::new();
+    let mut switches = 0u64;
+    for (i, (t, _)) in rr.schedule.iter().enumerate() {
+        if let Some((_, site)) = rr.schedule[i + 1..].iter().find(|(t2, _)| t2 == t) {
+            if rr.schedule.get(i + 1).is_some_and(|(t2, _)| t2 != t) {
+                preempt_sites.push(site);
+                switches += 1;
+            }
+        }
+    }
+    preempt_sites.sort_unstable();
+    preempt_sites.dedup();
+    for (t, s) in &rr.schedule {
+        ctx.obs(&[*t as u8]);
+        ctx.obs(s.as_bytes());
+    }
+    for o in &h {
+        ctx.obs(format!("{:?}", o.res).as_bytes());
+    }
+    ctx.event(|| json!({"k":"sched","strategy":case.strategy,"decisions":rr.schedule.len(),"lock_waits":rr.lock_waits,"preempted_at":preempt_sites}));
+    for o in &h {
+        ctx.event(|| json!({"k":"op","task":o.tid,"inv":o.inv,"ret":o.ret,"op":format!("{:?}", o.op),"res":format!("{:?}", o.res)}));
+    }
+    ctx.mutations = h.iter().filter(|o| !matches!(o.op, COp::Get(_) | COp::Contains(_))).count() as u32 + case.setup.len() as u32;
+    ctx.needs_fault = true;
+    ctx.faults = preempt_sites.len() as u32;
+    ctx.count_n("sched_points", rr.points);
+    ctx.count_n("context_switches_at_hook_sites", switches);
+    ctx.count_n("lock_waits", rr.lock_waits);
+    if rr.lock_waits > 0 {
+        ctx.reached("container_lock_contended");
+    }
+    for s in &preempt_sites {
+        ctx.count(&format!("preempted_at:{s}"));
+    }
+    ctx.state(Ctx::hash_of(format!("{sched_ids:?}").as_bytes()));
+    let patch = json!({"schedule": sched_ids});
+    let hist_txt = |h: &[HOp]| h.iter().map(|o| format!("T{}[{}..{}] {:?} -> {:?}", o.tid, o.inv, o.ret, o.op, o.res)).collect::<Vec<_>>().join("; ");
+
+    if let Some((tid, msg)) = rr.panics.first() {
+        let class = if msg.contains("deadlock:") { "deadlock" } else { "panic" };
+        return Some(Violation::new("C11.no_panic", class, sig(class), format!("task {tid}: {msg}; preempted at [{}]; history: {}", preempt_sites.join(", "), hist_txt(&h))).with_patch(patch));
+    }
+    // an operation that loses no race does not fail (a race = overlap with a mutator of the same key)
+    let raced = |o: &HOp| h.iter().any(|p| p.tid != o.tid && p.inv < o.ret && o.inv < p.ret && !matches!(p.op, COp::Get(_) | COp::Contains(_)) && p.op.key() == o.op.key());
+    if let Some(o) = h.iter().find(|o| matches!(o.res, Res::Err(_)) && !raced(o)) {
+        return Some(Violation::new("C11.no_spurious_error", "op_error", sig("op_error"), format!("task {} {:?} failed although no mutating operation of another task on that key overlaps it: {:?}; preempted at [{}]; history: {}", o.tid, o.op, o.res, preempt_sites.join(", "), hist_txt(&h))).with_patch(patch));
+    }
+    if let Some(o) = h.iter().find(|o| matches!(o.res, Res::Torn(_))) {
+        return Some(Violation::new("C11.no_torn_value", "torn_value", sig("torn_value"), format!("task {} {:?} returned bytes that are not the content written under that key: {:?}; history: {}", o.tid, o.op, o.res, hist_txt(&h))).with_patch(patch));
+    }
+
+    // ---- final state, observed sequentially on the live container: part of the history ----
+    let mut stamp = h.iter().map(|o| o.ret).max().unwrap_or(0) + 1;
+    let mut live_answers = Vec::new();
+    for k in 0..nk {
+        for op in [COp::Contains(k), COp::Get(k)] {
+            let res = do_cop(&c, &ekeys, &contents, &op);
+            live_answers.push((op.clone(), res.clone()));
+            h.push(HOp { tid: 99, inv: stamp, ret: stamp + 1, op, id: 0, res });
+            stamp += 2;
+        }
+    }
+    if let Some(o) = h[concurrent_ops..].iter().find(|o| matches!(o.res, Res::Err(_) | Res::Torn(_))) {
+        return Some(Violation::new("C11.quiescent_read", "quiescent_read_failed", sig("quiescent_read_failed"), format!("after all tasks finished {:?} returned {:?}; history: {}", o.op, o.res, hist_txt(&h))).with_patch(patch));
+    }
+    if !linearizable(Mode::Container, &init, &h) {
+        return Some(Violation::new("C11.linearizable", "not_linearizable", sig("not_linearizable"), format!("no sequential order consistent with real-time order explains the results and the final state (initial state {init:?}); preempted at [{}]; history: {}", preempt_sites.join(", "), hist_txt(&h))).with_patch(patch));
+    }
+    // ---- what a fresh instance on the same directory resolves = what the live one answers ----
+    drop(c);
+    let fresh = match open_container(&dir) {
+        Ok(f) => f,
+        Err(e) => {
+            return Some(Violation::new("C11.reopen", "reopen_failed", sig("reopen_failed"), format!("a fresh container on the directory the tasks used fails to open: {e}; history: {}", hist_txt(&h))).with_patch(patch));
+        }
+    };
+    for (op, live) in &live_answers {
+        let res = do_cop(&fresh, &ekeys, &contents, op);
+        if &res != live {
+            return Some(Violation::new("C11.books.durable", "durable_mismatch", sig("durable_mismatch"), format!("after all tasks finished the live container answers {op:?} -> {live:?} but a fresh instance on the same directory answers {res:?}; preempted at [{}]; history: {}", preempt_sites.join(", "), hist_txt(&h))).with_patch(patch));
+        }
     }
     None
 }
